@@ -35,6 +35,46 @@ def apply_edit(root, rel, old, new):
         with open(path, 'w', newline='') as f:
             f.write(ast.unparse(ast.parse(raw)) + '\n')
         return True
+    if isinstance(old, tuple) and old[0] == 'move_method':
+        # ('move_method', lineno, col): the undecorated method defined at that position becomes the last statement of its class
+        import ast
+        tree = ast.parse(raw)
+        done = False
+        for c in ast.walk(tree):
+            if isinstance(c, ast.ClassDef) and not done:
+                for i, st in enumerate(c.body):
+                    if isinstance(st, (ast.FunctionDef, ast.AsyncFunctionDef)) and (st.lineno, st.col_offset) == (old[1], old[2]) and i != len(c.body) - 1:
+                        c.body.append(c.body.pop(i))
+                        done = True
+                        break
+        if not done:
+            return False
+        with open(path, 'w', newline='') as f:
+            f.write(ast.unparse(tree) + '\n')
+        return True
+    if isinstance(old, tuple) and old[0] in ('split_and', 'merge_ifs'):
+        # `if a and b: X` (no else) <-> `if a:` + nested `if b: X`
+        import ast
+        tree = ast.parse(raw)
+        done = False
+        for st in ast.walk(tree):
+            if isinstance(st, ast.If) and (st.lineno, st.col_offset) == (old[1], old[2]) and not st.orelse and not done:
+                if old[0] == 'split_and' and isinstance(st.test, ast.BoolOp) and isinstance(st.test.op, ast.And):
+                    first, rest = st.test.values[0], st.test.values[1:]
+                    inner = ast.If(test=rest[0] if len(rest) == 1 else ast.BoolOp(op=ast.And(), values=rest), body=st.body, orelse=[])
+                    st.test, st.body = first, [inner]
+                    done = True
+                elif old[0] == 'merge_ifs' and len(st.body) == 1 and isinstance(st.body[0], ast.If) and not st.body[0].orelse:
+                    inner = st.body[0]
+                    st.test = ast.BoolOp(op=ast.And(), values=[st.test, inner.test])
+                    st.body = inner.body
+                    done = True
+        if not done:
+            return False
+        ast.fix_missing_locations(tree)
+        with open(path, 'w', newline='') as f:
+            f.write(ast.unparse(tree) + '\n')
+        return True
     if isinstance(old, tuple) and old[0] in ('insert_pass', 'invert_if'):
         # ('insert_pass', lineno, col) / ('invert_if', lineno, col): behaviour-preserving edit of the statement at that position
         import ast
